@@ -255,11 +255,14 @@ func panicRun(args []string) error {
 			}
 		}
 	}
-	for _, m := range net.Log() {
-		if m.From == pS && tID != nil {
-			for _, rs := range m.Msg.Responses() {
-				if rs.RequestID() == *tID && rs.Status().IsTerminal() {
-					tStatus = statusName(rs.Status())
+	// (the requestor can be done before the responder's last message is out: give that message time)
+	for t := time.Now(); tStatus == "" && tID != nil && time.Since(t) < 2*time.Second; time.Sleep(time.Millisecond) {
+		for _, m := range net.Log() {
+			if m.From == pS {
+				for _, rs := range m.Msg.Responses() {
+					if rs.RequestID() == *tID && rs.Status().IsTerminal() {
+						tStatus = statusName(rs.Status())
+					}
 				}
 			}
 		}
